@@ -10,6 +10,6 @@ git -C /repo worktree add --detach $WT HEAD >/dev/null 2>&1 || { echo "$NAME wor
 trap 'git -C /repo worktree remove --force $WT >/dev/null 2>&1' EXIT
 (cd $WT && git apply $D/patch.diff) || { echo "$NAME apply failed"; exit 3; }
 for C in ${@:-$PROP}; do
-  OUT=$(cd /verif && VERIF_REPO=$WT bin/check $C --tier ${TIER:-quick} --seed ${SEED:-1} 2>&1); RC=$?
+  OUT=$(cd ${VERIF_DIR:-/verif} && VERIF_REPO=$WT bin/check $C --tier ${TIER:-quick} --seed ${SEED:-1} 2>&1); RC=$?
   echo "$NAME $C rc=$RC $(echo "$OUT" | grep -m3 'signature:' | tr '\n' ';') $(echo "$OUT" | grep VERIF-SUMMARY | head -1)"
 done
